@@ -93,6 +93,8 @@ FAULTS = [
     Fault("r6-as-accumulator", "implicit-accumulator", E, "\tldf [[r6]], ac0"),
     Fault("external-dot", "invalid-assignment", E, "\tnop\n[[.]] == 3000", where="top", phase="parse"),
     Fault("too-long-char-literal", "too-long-string", E, "\tmov #[[\"яя]], r0", where="utf8"),
+    Fault("extern-undefined-used", "undefined-symbol", E, "\tmov [[eu§]], r0", pre=["\t.extern eu§"], where="top", phase="link"),
+    Fault("extern-undefined-branch", "undefined-symbol", E, "\tbr [[ev§]]", post=["\t.extern ev§"], where="top", phase="link"),
     Fault("negative-89", "invalid-number", E, "\t.word -[[89]]", phase="parse"),
     Fault("include-directory", "io-error", E, "\t[[.include]] /./"),
     Fault("insert-directory", "io-error", E, "\t[[insert_file]] \".\""),
